@@ -1,6 +1,7 @@
 package simrt
 
 import (
+	"os"
 	"sync/atomic"
 	"time"
 )
@@ -40,5 +41,9 @@ func RandFloat64(site string) float64 { return float64(ambient()>>11) / (1 << 53
 func Getpid(site string) int          { return 1000 + int(ambient()%30000) }
 func Getenv(key string, site string) string {
 	return "" + string(rune('a'+ambient()%26))
+}
+// ExpandEnv: $NAME and ${NAME} are replaced by what the simulated environment answers
+func ExpandEnv(s string, site string) string {
+	return os.Expand(s, func(k string) string { return Getenv(k, site) })
 }
 func Hostname(site string) (string, error) { return "host" + string(rune('a'+ambient()%26)), nil }
